@@ -17,7 +17,7 @@ RULE = (
     "<=9 operations (quick) / <=11 (thorough), <=3 machines so that machines "
     "are shared. Oracle: OPT(I) = exact minimum over ALL dispatch histories "
     "computed on the independent model (memoised branch and bound); then the "
-    "tree of Dispatcher(instance, filter_dominated_operations)"
+    "tree of Dispatcher(instance, filter_dominated_operations) (the function itself or a one-member composition of it)"
     ".available_operations() x eligible machines is searched on the REAL "
     "dispatcher (memoised, bounded by OPT) for a leaf with makespan == OPT: "
     "found = property holds for this instance (complete decision, since the "
@@ -125,6 +125,20 @@ def fixed_cases(tier):
             }
         }
         for d, m in NEEDS_DELAY
+    ] + [
+        {
+            "inst": {
+                "durations": d,
+                "machines": m,
+                "name": "I",
+                "meta": {},
+                "ints": True,
+                "family": "needs_delay",
+            },
+            "as_composite": 1 + k % 2,
+            "reuse": bool(k % 2),
+        }
+        for k, (d, m) in enumerate(NEEDS_DELAY)
     ]
 
 
@@ -141,7 +155,7 @@ def strategy(tier):
     )
     inst = gen.weighted((3, _instances(11 if big else 9)), (1, general), (1, _delay_template()))
     return st.fixed_dictionaries(
-        {"inst": inst, "reuse": st.booleans(), "observed": gen.pick([False, True, False, False, False, False])}
+        {"inst": inst, "reuse": st.booleans(), "observed": gen.pick([False, True, False, False, False, False]), "as_composite": gen.pick([0, 1, 0, 2])}
     )
 
 
@@ -290,7 +304,20 @@ def check_case(case, ctx):
     stats = {"nodes": 0, "pruned_states": 0, "best": float("inf")}
     reuse = bool(case.get("reuse"))
     observed = bool(case.get("observed"))
-    found = search(ctx, inst, instance, opt, filter_dominated_operations, stats, reuse, observed)
+    main_filter = filter_dominated_operations
+    if case.get("as_composite"):
+        # the same filter obtained as a one-member composition, by name
+        from job_shop_lib.dispatching import create_composite_operation_filter
+        from job_shop_lib.dispatching.rules import DispatchingRuleSolver
+
+        # (a solver with default settings - which holds another composition -
+        # exists in the same process)
+        DispatchingRuleSolver()
+        main_filter = create_composite_operation_filter(
+            ["dominated_operations"] if case["as_composite"] == 1 else [filter_dominated_operations]
+        )
+        ctx.label("one_member_composition")
+    found = search(ctx, inst, instance, opt, main_filter, stats, reuse, observed)
     if reuse:
         ctx.label("reused_dispatcher")
     if observed:
